@@ -2,6 +2,7 @@ import Driver.Ops
 import Vanguard.Spec.Codes
 import Vanguard.Spec.Timeout
 import Vanguard.Spec.Routing
+import Vanguard.Props.C09
 /-!
   Oracle mode: `vgdriver spec Cxx` reads lines `op args…<TAB>result` (result = what the
   *implementation* printed) and evaluates the executable specification the theorems of
@@ -98,6 +99,10 @@ def specCheck (prop : String) (op res : List String) : String :=
     match (" ".intercalate res).splitOn " ## " with
     | [a, b] => verdict (a == b) "observation depends on the segmentation of reads/writes"
     | _ => "fail unparsable result"
+  | "C09", ["env_dec", h, b] =>
+    match envOf h, fromHex b with
+    | some e, some (f :: _) => verdict ((res != ["err"]) == C09.legalFlags e f) "envelope flags accepted although illegal for the handler (or legal ones rejected)"
+    | _, _ => "nospec"
   | "C19", ["e2e_getpost", a, b] => specGetPost a b res
   | prop, ["e2e", h] => specE2E prop h res
   | prop, ["e2e_fresh", h] => specE2E prop h res
